@@ -235,3 +235,124 @@ Definition wf (t : table) : bool :=
   Nat.ltb 0 (length (t_inputs t)) && Nat.ltb 0 (length (t_outputs t)) &&
   forallb (fun r => Nat.eqb (length (r_in r)) (length (t_inputs t)) && Nat.eqb (length (r_out r)) (length (t_outputs t))
                     && Nat.eqb (length (r_ann r)) (length (t_annotations t))) (t_rules t).
+
+(* ================================================================== orientation: hit-policy marker and rule numbers
+   (plane.rs recognize_hit_policy_placement / recognize_rule_numbers_placement, recognizer.rs recognize_orientation and
+   recognize_table_components).  The two text parsers are abstract. *)
+Fixpoint zipcons (r : list cell) (m : plane) : plane :=
+  match r, m with x :: r', row :: m' => (x :: row) :: zipcons r' m' | _, _ => [] end.
+
+Inductive hp_place := TopLeft (hp : N) | BottomLeft (hp : N) | HpAbsent.
+Inductive rn_place := LeftBelow (n : nat) | RightAfter (n : nat) | RnAbsent.
+Inductive orient := AsRow | AsColumn.
+
+Definition is_hout (c : cell) := match c with HOut => true | _ => false end.
+Definition is_vout (c : cell) := match c with VOut => true | _ => false end.
+Definition is_vcross (c : cell) := match c with VCross => true | _ => false end.
+
+Fixpoint after (f : cell -> bool) (cs : list cell) : list cell :=
+  match cs with [] => [] | c :: r => if f c then r else after f r end.
+
+Section Orientation.
+Variable parse_hp : N -> option N.       (* HitPolicy::try_from on the text of a cell *)
+Variable parse_num : N -> option nat.    (* usize::from_str on the trimmed text *)
+
+Definition cell_hp (c : cell) : option N := match c with Region _ tx => parse_hp tx | _ => None end.
+
+(* None = an error (or the unwrap on an empty row, excluded since the plane is checked to be rectangular) *)
+Definition hp_placement (p : plane) : option hp_place :=
+  match p with
+  | [] => None
+  | [] :: _ => None
+  | (c1 :: _) :: _ =>
+      match cell_hp c1 with
+      | Some hp => Some (TopLeft hp)
+      | None => match last p [] with
+                | [] => None
+                | c2 :: _ => match cell_hp c2 with Some hp => Some (BottomLeft hp) | None => Some HpAbsent end
+                end
+      end
+  end.
+
+(* the loop over the cells where rule numbers are expected: None = invalid rule number (error),
+   Some None = a cell that is not a number (not present), Some (Some max) *)
+Fixpoint numbers (expected : nat) (cs : list cell) : option (option nat) :=
+  match cs with
+  | [] => Some (Some (expected - 1))
+  | Region _ tx :: r =>
+      match parse_num tx with
+      | Some n => if Nat.eqb n expected then numbers (S expected) r else None
+      | None => Some None
+      end
+  | _ :: _ => Some None
+  end.
+
+Definition rn_placement (p : plane) : option rn_place :=
+  match numbers 1 (after is_hout (heads p)) with
+  | None => None
+  | Some (Some (S n)) => Some (LeftBelow (S n))
+  | _ =>
+      match numbers 1 (after is_vout (last p [])) with
+      | None => None
+      | Some (Some (S n)) => Some (RightAfter (S n))
+      | _ => Some RnAbsent
+      end
+  end.
+
+Definition present (f : cell -> bool) (p : plane) : bool := match find_plane f p with Some _ => true | None => false end.
+
+Definition orientation (p : plane) : option (orient * N * nat) :=
+  match hp_placement p, rn_placement p with
+  | Some hpp, Some rnp =>
+      if present is_hcross p then
+        match hpp, rnp with TopLeft hp, LeftBelow n => Some (AsRow, hp, n) | _, _ => None end
+      else if present is_vcross p then
+        match hpp, rnp with BottomLeft hp, RightAfter n => Some (AsColumn, hp, n) | _, _ => None end
+      else
+        match hpp, rnp with
+        | TopLeft hp, LeftBelow n => Some (AsRow, hp, n)
+        | BottomLeft hp, RightAfter n => Some (AsColumn, hp, n)
+        | _, _ => None                      (* errors, or a crosstab (not supported) *)
+        end
+  | _, _ => None
+  end.
+
+Definition recognize_plane (p : plane) : option (orient * N * nat * fields) :=
+  match orientation p with
+  | Some (AsRow, hp, n) => option_map (fun f => (AsRow, hp, n, f)) (recognize_horizontal (tails p))          (* remove_first_column *)
+  | Some (AsColumn, hp, n) => option_map (fun f => (AsColumn, hp, n, f)) (recognize_horizontal (pivot (removelast p)))
+  | None => None
+  end.
+
+End Orientation.
+
+(* builder.rs validate_size on what the recogniser collected (input_clause_count = #expressions,
+   output_clause_count = width of the output rectangle = length of an output entry row, rule_count from the rule numbers) *)
+Definition validate_size (n_in n_out n_ann rule_count : nat) (f : fields) : bool :=
+  Nat.ltb 0 n_in && Nat.eqb (length (f_inputs f)) n_in &&
+  (Nat.eqb (length (f_input_values f)) 0 || Nat.eqb (length (f_input_values f)) n_in) &&
+  Nat.ltb 0 n_out &&
+  (if Nat.ltb 1 n_out then Nat.eqb (length (f_components f)) n_out else Nat.eqb (length (f_components f)) 0) &&
+  (Nat.eqb (length (f_output_values f)) 0 || Nat.eqb (length (f_output_values f)) n_out) &&
+  Nat.ltb 0 rule_count &&
+  Nat.eqb (length (f_input_entries f)) rule_count && forallb (fun r => Nat.eqb (length r) n_in) (f_input_entries f) &&
+  Nat.eqb (length (f_output_entries f)) rule_count && forallb (fun r => Nat.eqb (length r) n_out) (f_output_entries f) &&
+  (Nat.eqb n_ann 0 || (Nat.eqb (length (f_annotation_entries f)) rule_count && forallb (fun r => Nat.eqb (length r) n_ann) (f_annotation_entries f))).
+
+(* ---------------- Spec: the whole plane of a drawing, both orientations ---------------- *)
+Section Layout.
+Variable hp_text : N.
+Variable num_text : nat -> N.
+
+Definition marker : cell := Region (0%N, 0%N) hp_text.
+Definition numbers_cells (t : table) : list cell :=
+  map (fun i => Region (10%N, N.of_nat i) (num_text (S i))) (seq 0 (length (t_rules t))).
+
+(* rules as rows: the marker / rule-number column in front *)
+Definition layout_rows (t : table) : plane :=
+  zipcons (repeat marker (hdr t) ++ HOut :: numbers_cells t) (layout_h t).
+
+(* rules as columns: the pivoted plane with the marker / rule-number line below *)
+Definition layout_columns (t : table) : plane :=
+  pivot (layout_h t) ++ [repeat marker (hdr t) ++ VOut :: numbers_cells t].
+End Layout.
